@@ -72,8 +72,11 @@ def _cut_runs(ctx, drv, quick_stride, tag):
     small_t, ns_t = thin(small, quick_stride, "cuts_small_thin_%s.ndjson" % tag)
     big_t, nb_t = thin(big, max(1, quick_stride // 2), "cuts_big_thin_%s.ndjson" % tag)
     o1, o2 = ctx.sub("cut_small_" + tag), ctx.sub("cut_big_" + tag)
-    t1, n1 = _drive(ctx, drv, small_t, o1, extra=["-cuts", "every,bytewise,bounds,rand2x8" if q else "every,bytewise,bounds,rand6x8"])
-    t2, n2 = _drive(ctx, drv, big_t, o2, extra=["-cuts", "bounds,rand3x8"] if q else ["-cuts", "bounds,rand6x8,bytewise", "-maxwire", "14000"])
+    # (few, larger trace files in the quick tier: one TLC process per file, and the box is shared)
+    t1, n1 = _drive(ctx, drv, small_t, o1, chunks=8 if q else lib.NCPU,
+                    extra=["-cuts", "every,bytewise,bounds,rand2x8" if q else "every,bytewise,bounds,rand6x8"])
+    t2, n2 = _drive(ctx, drv, big_t, o2, chunks=2 if q else lib.NCPU,
+                    extra=["-cuts", "bounds,rand3x8"] if q else ["-cuts", "bounds,rand6x8,bytewise", "-maxwire", "14000"])
     res = lib.validate(ctx, TRACE[0], TRACE[1], t1 + t2, timeout=1800)
     return {"traces": t1 + t2, "res": res, "scripts_small": ns_t, "scripts_big": nb_t, "cases": n1 + n2,
             "generated_small": ns, "generated_big": nb}
